@@ -17,7 +17,7 @@ import (
 // Every ssa.Convert between numeric types is classified. A conversion that can change the mathematical
 // value (float→integer, signed↔unsigned, to a narrower type) must be
 //   (a) dominated by a guard that makes it exact: an integrality test of the operand
-//       (x == math.Trunc(x) or swag.IsFloat64AJSONInteger(x)) together with a range test against constants,
+//       (x == math.Trunc(x) / math.Floor(x); the tolerance test swag.IsFloat64AJSONInteger is not accepted) together with a range test against constants,
 //       possibly packaged in a one-parameter predicate function of the package, or a sign test for
 //       signed↔unsigned of the same width; or
 //   (b) unreachable for every Go numeric carrier type (abstract runs of the D-DYN interpreter from the
@@ -143,6 +143,40 @@ func Narrow(p *core.Prog, r *core.Report) {
 			r.Bad(rule, key, p.Pos(cv.Pos()), fmt.Sprintf("lossy conversion %s→%s of %s on a comparison path without a guard making it exact (%s): the verdict depends on the Go type carrying the number", from.Name(), to.Name(), describeNum(cv.X), why))
 		})
 	}
+	// NATIVE-ARG: the typed facades dispatch on the Go kind of the value they receive, so every caller inside
+	// the package must hand them the datum it was given — not a copy normalised to float64, which makes the
+	// integer branches unreachable and loses exactness above 2^53 before the dispatch.
+	facades := map[string]bool{"MaximumNativeType": true, "MinimumNativeType": true, "MultipleOfNativeType": true}
+	nNative := 0
+	for _, f := range p.Funcs {
+		fn := core.FuncName(f)
+		core.EachInstr(f, func(i ssa.Instruction) {
+			c, ok := i.(ssa.CallInstruction)
+			if !ok {
+				return
+			}
+			g := core.StaticCallee(c)
+			if g == nil || !p.InSubject(g) || !facades[core.FuncName(g)] || len(c.Common().Args) < 3 {
+				return
+			}
+			nNative++
+			base := fn + ":" + core.FuncName(g) + ":value-argument"
+			seq[base]++
+			key := base
+			if seq[base] > 1 {
+				key = fmt.Sprintf("%s#%d", base, seq[base])
+			}
+			arg := c.Common().Args[2]
+			why := normalisedToFloat(arg, 0)
+			if why != "" {
+				r.Bad(rule, key, p.Pos(c.Pos()), "the typed facade receives "+why+" instead of the datum itself: integer carriers are compared as float64 (inexact above 2^53) and the kind dispatch never takes its integer branches")
+			} else {
+				r.OK(rule, key, p.Pos(c.Pos()), "the facade receives the caller's datum unchanged")
+			}
+		})
+	}
+	r.Count("native_facade_calls", nNative)
+	r.Floor("native_facade_calls", 3)
 	r.Count("numeric_conversions", total)
 	r.Count("numeric_conversions_lossy", nLossy)
 	r.Floor("numeric_conversions", 15)
@@ -304,10 +338,8 @@ func exactGuard(p *core.Prog, cv *ssa.Convert, from, to *types.Basic) string {
 				if g == nil || !c.Sense {
 					continue
 				}
-				if core.QualName(g) == "swag.IsFloat64AJSONInteger" && self(v.Call.Args[0]) {
-					integral = true
-					parts = append(parts, "IsFloat64AJSONInteger(x)")
-				}
+				// swag.IsFloat64AJSONInteger is a tolerance test (|x-round(x)| below a relative epsilon): it
+				// accepts 1000000000.5, so it is NOT an integrality guard for a value-changing conversion.
 			}
 		}
 	}
@@ -385,3 +417,53 @@ func exactGuard(p *core.Prog, cv *ssa.Convert, from, to *types.Basic) string {
 }
 
 var _ = reflect.Int
+
+// normalisedToFloat: does the interface value wrap a float64 obtained by converting something else
+// (asFloat64 helper or a numeric conversion)? Returns a description, or "" when the value is the datum itself.
+func normalisedToFloat(v ssa.Value, d int) string {
+	if d > 6 {
+		return ""
+	}
+	switch x := v.(type) {
+	case *ssa.ChangeInterface:
+		return normalisedToFloat(x.X, d+1)
+	case *ssa.MakeInterface:
+		b := basicOf(x.X.Type())
+		if b == nil || b.Kind() != types.Float64 {
+			return ""
+		}
+		return floatOrigin(x.X, d+1)
+	case *ssa.Phi:
+		for _, e := range x.Edges {
+			if w := normalisedToFloat(e, d+1); w != "" {
+				return w
+			}
+		}
+	}
+	return ""
+}
+
+func floatOrigin(v ssa.Value, d int) string {
+	if d > 6 {
+		return ""
+	}
+	switch x := v.(type) {
+	case *ssa.Convert:
+		return "a value converted to float64 (" + x.X.Type().String() + "→float64)"
+	case *ssa.Call:
+		if g := core.StaticCallee(x); g != nil {
+			for _, a := range x.Call.Args {
+				if types.IsInterface(a.Type()) {
+					return "the float64 computed by " + core.FuncName(g) + " from the datum"
+				}
+			}
+		}
+	case *ssa.Phi:
+		for _, e := range x.Edges {
+			if w := floatOrigin(e, d+1); w != "" {
+				return w
+			}
+		}
+	}
+	return ""
+}
